@@ -117,6 +117,19 @@ class Interp:
                     if m is not None:
                         todo.append(m)
         regs = [c for c in cands if c in filled]
+        # which of them hold a sequence of requests per address (a deque) rather than a dict keyed by identifier: the registry is
+        # mentioned together with `deque` in one statement / one row of a table of buildProtocol (or of what it calls)
+        self.seq_registries = set()
+        for q in seen:
+            fn = self.prog.funcs.get(q)
+            if fn is None:
+                continue
+            rows = [n for n in ast.walk(fn.node) if isinstance(n, (ast.Tuple, ast.Assign, ast.Expr))]
+            for n in rows:
+                names = {x.attr for x in ast.walk(n) if isinstance(x, ast.Attribute) and isinstance(x.value, ast.Name) and x.value.id == "self" and x.attr in regs}
+                has_deque = any(isinstance(x, ast.Name) and x.id == "deque" for x in ast.walk(n))
+                if has_deque and len(names) == 1:
+                    self.seq_registries |= names
         return regs
 
     def _mutable_self_fields(self):
